@@ -22,6 +22,7 @@ def dispatch (j : Json) : List (String × Json) :=
   | "ypath" => S.handlePath j
   | "ydata" => S.handleData j
   | "yfilter" => Cm.handleFilter j
+  | "ycfg" => Cm.handleCfg j
   | "yvals" => V.handle j
   | k => [("m", Json.str ("unknown-kind:" ++ k)), ("s", Json.str "unknown-kind")]
 
